@@ -133,6 +133,14 @@ def run(ctx: Ctx) -> None:
             chain = list(reversed(ops))
             e = chain[0] if len(chain) == 1 else CompositionOperator(chain)
             check(ctx, 'expr', i, e, 'expression')
+    for i in range(60 if q else 1500):
+        if ctx.want('moveaxis', i):
+            # two adjacent move-axis operators over pytrees of mixed rank: inverse pairs, look-alike pairs sharing one
+            # side, unrelated pairs (the generator of C01's stream `moveaxis`): the reduced structures must be honest
+            import c01
+            st_, built = safe(c01.moveaxis_expr, ctx.rng('moveaxis', i))
+            if st_ == 'ok':
+                check(ctx, 'moveaxis', i, built[0], 'expression')
     for i in range(150 if q else 3000):
         if ctx.want('leaf', i):
             rng = ctx.rng('leaf', i)
